@@ -198,9 +198,14 @@ theorem hotstart_StorageTrapAll_from_upto [AddZeroLaw α] : HotStart (StorageTra
 
 /-! ### non-vacuity -/
 
-/-- the hypotheses (two successful calls) are satisfiable over any arithmetic -/
-example (s x y : α) : ∃ o₁ o₂, (StorageTrapAll.model (α := α)).run [] [[x], [], [], []] [s] = .ok o₁ ∧
-    (StorageTrapAll.model (α := α)).run [] [[y], [], [], []] o₁.states = .ok o₂ := ⟨_, _, rfl, rfl⟩
+/-- the hypotheses (four equally long series per part — `AllLen` — and two successful calls) are satisfiable over any
+arithmetic: a 2-step part, then a 1-step part from the returned state row -/
+example (s x x' y u v w : α) :
+    AllLen 2 [[x, x'], [u, u], [v, v], [w, w]] ∧ AllLen 1 [[y], [u], [v], [w]] ∧
+    ∃ o₁ o₂, (StorageTrapAll.model (α := α)).run [] [[x, x'], [u, u], [v, v], [w, w]] [s] = .ok o₁ ∧
+      (StorageTrapAll.model (α := α)).run [] [[y], [u], [v], [w]] o₁.states = .ok o₂ := by
+  refine ⟨?_, ?_, _, _, rfl, rfl⟩ <;>
+    (intro t ht; simp only [List.mem_cons, List.not_mem_nil, or_false] at ht; rcases ht with rfl | rfl | rfl | rfl <;> rfl)
 
 /-- and the relation is not trivially true: it pins the outputs down to the split-run values up to `+ 0.0` -/
 example (y : α) : UpToAddZero y (y + 0.0) := Or.inr rfl
